@@ -22,6 +22,9 @@ cats.column_loop.writes_only_own_column), with V = num_categories of column i af
                                                    b'pandas' entry := json.dumps(<the updated meta>, ...).encode(), after all updates
   cats.other_key_values_untouched                  no other entry / field of fmd.key_value_metadata is written
   cats.no_pandas_metadata_no_change                without a b'pandas' entry nothing is written
+  cats.total_on_arbitrary_keys                     the function is TOTAL on the key-value list: keys are opaque byte strings (or str) on which
+                                                   only == / != with a constant is defined; decoding one (ensure_str, .decode, str(k, enc))
+                                                   must be proved unable to raise - it is not for bytes that are not valid UTF-8
 Call sites (ast of the real sources):
   init.many_files_branch_consolidates[list|directory|glob]   in ParquetFile.__init__, every `basepath, fmd = metadata_from_many(...)`
         is followed by `writer.consolidate_categories(fmd)` before fmd is used (self.fmd = fmd, ...)
@@ -54,6 +57,9 @@ I, B = z3.IntSort(), z3.BoolSort()
 NKV, NCOLM, NRG = z3.Int("n_fmd_key_values"), z3.Int("n_pandas_columns"), z3.Int("n_row_groups")
 KVNONE = z3.Bool("fmd_key_value_metadata_is_None")
 ISP = z3.Function("key_is_pandas", I, B)
+KEYSTR = z3.Function("key_is_a_str_not_bytes", I, B)
+VALID8 = z3.Function("key_bytes_are_valid_utf8", I, B)
+ISPSTR = z3.Function("str_key_is_the_text_sought", I, B)
 HASNC = z3.Function("column_has_num_categories", I, B)
 MDTRUE = z3.Function("column_metadata_truthy", I, B)
 NC0 = z3.Function("initial_num_categories", I, I)
@@ -166,9 +172,30 @@ class KV(H):
         raise Unsupported("KeyValue[...]")
 
 
+def key_op(eng, p, key, what, total, node):
+    """an operation other than ==/!= applied to a key: the function is total on ARBITRARY keys only if it cannot raise"""
+    eng.oblige(p, f"{eng.cur_func}.total_on_arbitrary_keys", "safety", total, node,
+               note=f"{what} on a key-value key: user keys are arbitrary bytes (or str) - e.g. b'sig\\xe2(' is not valid UTF-8 - and the "
+                    "function must neither raise on them nor change them")
+    p.pc.append(total)
+    p.ghost["key_ops"] = list(p.ghost.get("key_ops", [])) + [what]
+
+
 class Key(H):
+    """a key of a key-value entry: an OPAQUE byte string (or str) - only == / != with a constant is defined on it"""
+    tracked = True          # handed to a call this proof script does not model: out of reach, never silently accepted
+
     def __init__(self, kind, idx):
         self.kind, self.idx = kind, idx
+
+    def call_method(self, eng, p, name, args, kw, node):
+        if name == "decode":
+            lenient = "errors" in kw or len(args) >= 2
+            key_op(eng, p, self, "." + name + "()", z3.BoolVal(True) if lenient else z3.And(z3.Not(KEYSTR(*self.idx)), VALID8(*self.idx)), node)
+            return [(p, Custom(KeyText(self)))]
+        if name in ("lower", "upper", "strip", "lstrip", "rstrip") and not args:
+            return [(p, Opaque(("key_text", name, next(eng.counter))))]         # total on bytes and on str
+        raise Unsupported("key." + name + "()")
 
     def eq(self, eng, p, other):
         lit = other.tag[1] if isinstance(other, Opaque) and isinstance(other.tag, tuple) and other.tag[:1] == ("bytes",) else None
@@ -177,6 +204,22 @@ class Key(H):
         if self.kind == "chunk" and lit == b"num_categories":
             return ISNCK(*self.idx)
         raise Unsupported("key compared with " + repr(lit))
+
+
+class KeyText(H):
+    """the text a key decodes to (when decoding did not raise)"""
+
+    def __init__(self, key):
+        self.key = key
+
+    def eq(self, eng, p, other):
+        if isinstance(other, Str) and self.key.kind == "fmd" and other.s == "pandas":
+            j = self.key.idx
+            return z3.Or(z3.And(z3.Not(KEYSTR(*j)), ISP(*j)), z3.And(KEYSTR(*j), ISPSTR(*j)))
+        if isinstance(other, Str) and self.key.kind == "chunk" and other.s == "num_categories":
+            j = self.key.idx
+            return z3.Or(z3.And(z3.Not(KEYSTR(*j)), ISNCK(*j)), z3.And(KEYSTR(*j), ISPSTR(*j)))
+        return eng.fresh("key_text_eq", B)
 
 
 class KVal(H):
@@ -561,7 +604,22 @@ def run_cats(funcs, timeout):
             return [(p, Custom(ChunkNm(args[1].h.r, args[1].h.c)))]
         return [(p, Opaque(("join", next(eng.counter))))]
 
+    def h_ensure_str(eng, p, args, kw, node):
+        a = args[0] if args else None
+        if isinstance(a, Custom) and isinstance(a.h, Key):
+            ig = kw.get("ignore_error")
+            lenient = isinstance(ig, PyB) and z3.is_true(z3.simplify(ig.z))
+            # util.ensure_str: str -> itself; bytes -> .decode('utf-8'), UnicodeDecodeError re-raised unless ignore_error
+            key_op(eng, p, a.h, "ensure_str()", z3.BoolVal(True) if lenient else z3.Or(KEYSTR(*a.h.idx), VALID8(*a.h.idx)), node)
+            return [(p, Custom(KeyText(a.h)))]
+        return [(p, Opaque(("ensure_str", next(eng.counter))))]
+
     def h_str(eng, p, args, kw, node):
+        if args and isinstance(args[0], Custom) and isinstance(args[0].h, Key):
+            if len(args) == 1 and not kw:
+                return [(p, Opaque(("repr_of_key", next(eng.counter))))]       # str(b'..') is the repr: total
+            key_op(eng, p, args[0].h, "str(key, encoding)", z3.And(z3.Not(KEYSTR(*args[0].h.idx)), VALID8(*args[0].h.idx)), node)
+            return [(p, Custom(KeyText(args[0].h)))]
         if args and isinstance(args[0], PyI):
             return [(p, Custom(DecB(args[0].z)))]
         return [(p, Opaque(("str", next(eng.counter))))]
@@ -571,7 +629,8 @@ def run_cats(funcs, timeout):
             return BUILTINS["max"](eng, p, args, kw, node)
         except Unsupported:
             return [(p, Opaque(("max", next(eng.counter))))]       # e.g. max() of byte strings: lexicographic, no integer meaning
-    handlers = {"listcomp": h_listcomp, "json.loads": h_loads, "json.dumps": h_dumps, ".join": h_join, "str": h_str, "max": h_max}
+    handlers = {"listcomp": h_listcomp, "json.loads": h_loads, "json.dumps": h_dumps, ".join": h_join, "str": h_str, "max": h_max,
+                "ensure_str": h_ensure_str}
     eng = CatsEngine(funcs=funcs, handlers=handlers, opaque_calls=True)
     eng.col_ends = []
     p = Path()
@@ -631,6 +690,10 @@ def run_cats(funcs, timeout):
         res.add("cats.other_key_values_untouched", PROVED if len(writes) == len(good) else REFUTED,
                 None if len(writes) == len(good) else {"stores": [(str(w[0]), w[1]) for w in writes]}, 0.0, "trace",
                 "no other entry / field of fmd.key_value_metadata is written")
+    if not any(nm == "cats.total_on_arbitrary_keys" for nm in res.order):
+        res.add("cats.total_on_arbitrary_keys", PROVED, None, 0.0, "trace",
+                "only == / != with a constant is ever applied to a key of fmd.key_value_metadata or of a chunk: keys that are arbitrary bytes "
+                "(not valid UTF-8) or str cannot make the function raise; with other_key_values_untouched: every non-pandas entry stays as it is, in order")
     res.add("cats.paths_reached", PROVED if n_ret >= 2 and eng.col_ends else UNKNOWN, None, 0.0, "trace",
             f"returning paths {n_ret}, ends of the arbitrary column iteration {len(eng.col_ends)}")
     vac = {"requires_sat": int(solve(list(p.pc) + [NRG == 2, NCOLM == 1, HASNC(0)], 2000)[0] == REFUTED), "must_fail_sat": 0}
@@ -723,8 +786,12 @@ def call_sites(res):
     return init, m, w
 
 
-def check(ctx, timeout):
-    """-> list of (name, model, detail) refuted"""
+KEY_FAMILY = ("cats.total_on_arbitrary_keys", "cats.other_key_values_untouched", "cats.writes_updated_json_under_pandas_key",
+              "cats.no_pandas_metadata_no_change", "cats.nothing_else_in_pandas_metadata_changes", "cats.index_in_range")
+
+
+def check(ctx, timeout, only=None):
+    """-> list of (name, model, detail) refuted.  `only`: predicate on obligation names (the key-value family is exposed to C16)"""
     funcs, _, _ = parse_module("fastparquet/writer.py")
     f = funcs["consolidate_categories"]
     ctx.function("writer.consolidate_categories", f.sha, f.report)
@@ -732,6 +799,8 @@ def check(ctx, timeout):
 
     def record(fq, res):
         for name in res.order:
+            if only is not None and not only(name):
+                continue
             st = res.status(name)
             e = next((x for x in res.d[name] if x[0] == st), res.d[name][0])
             ctx.obligation(name, fq, st, e[3], sum(x[2] for x in res.d[name]), detail=e[4], model=e[1] if st == REFUTED else None,
